@@ -625,7 +625,9 @@ func (m *model) features() (v1, add []string) {
 			for _, x := range f.feats {
 				s2["new:"+x] = true
 			}
-			if f.rel != nil {
+			if f.rel != nil && f.rel.bt {
+				s2["new:belongs-to"] = true
+			} else if f.rel != nil {
 				s2["new:m2m"] = true
 			} else if f.mixin {
 				s2["new:mixin"] = true
